@@ -2319,3 +2319,18 @@ fire("c12-histogram-not-incremented", ["C12"], TGF,
      "self.subexpr_histogram.get(expr, 0) + 1",
      "self.subexpr_histogram.get(expr, 1)",
      "P/CSEWalkMapper.visit/histogram")
+
+silent("c05-cse-mixin-membership-test", ["C05", "C10", "C12"], MI,
+       "        key = (expr, *args)\n"
+       "        try:\n"
+       "            return ccd[key]\n"
+       "        except KeyError:\n"
+       "            result = self.map_common_subexpression_uncached(expr, *args)\n"
+       "            ccd[key] = result\n"
+       "            return result\n",
+       "        key = (expr, *args)\n"
+       "        if key in ccd:\n"
+       "            return ccd[key]\n\n"
+       "        result = self.map_common_subexpression_uncached(expr, *args)\n"
+       "        ccd[key] = result\n"
+       "        return result\n")
